@@ -1,6 +1,6 @@
 //! C02 - nodes are exactly the maximal unbranched paths.
 use super::note;
-use crate::case::{GCase, Part};
+use vglue::case::{GCase, Part};
 use crate::pipe::*;
 use debruijn::compression::*;
 use debruijn::*;
